@@ -49,25 +49,26 @@ type rec struct {
 }
 
 type env struct {
-	c       *core.Ctx
-	r       *core.Rand
-	h       *vdb.Handle
-	m       *model
-	opt     string
-	ret     bool
-	firstID bool
-	ops     []string
-	all     []*rec
-	seq     int
-	gap     int64
-	big     int64
-	viol    map[string][]string
-	sigs    []string
-	failed  bool
-	callBad bool
-	info    map[string]interface{}
-	readRot int
-	emitted map[string]bool
+	c        *core.Ctx
+	r        *core.Rand
+	h        *vdb.Handle
+	m        *model
+	opt      string
+	mixedPat string // ":preset-first" | ":interleaved" for a slice mixing preset and generated keys
+	ret      bool
+	firstID  bool
+	ops      []string
+	all      []*rec
+	seq      int
+	gap      int64
+	big      int64
+	viol     map[string][]string
+	sigs     []string
+	failed   bool
+	callBad  bool
+	info     map[string]interface{}
+	readRot  int
+	emitted  map[string]bool
 	// set once the corresponding deviation was reported in this database, so that the rest of the
 	// plan still exercises everything else
 	current        string // the call in progress (for panic attribution)
@@ -358,7 +359,7 @@ func inWindow(l *leaf, mem reflect.Value, before, after int64) bool {
 
 func (e *env) keySig(rc *rec, mixed bool) string {
 	if mixed {
-		return "key-backfill/mixed-preset-keys/" + e.opt
+		return "key-backfill/mixed-preset-keys" + e.mixedPat + "/" + e.opt
 	}
 	return "key-backfill/" + rc.shape + "/" + e.opt
 }
@@ -660,6 +661,21 @@ func (e *env) runStructShape(shape string, forceKey string) {
 		callMode = "given"
 	}
 	mixed := callMode == "mixed"
+	// where the records with preset keys stand: all before the first record whose key is generated
+	// (":preset-first") or some after one (":interleaved"; counting back from LastInsertId is then wrong
+	// by construction, KF-C03-1)
+	e.mixedPat = ""
+	if mixed {
+		e.mixedPat = ":preset-first"
+		seenZero := false
+		for _, md := range modes {
+			if md == "zero" {
+				seenZero = true
+			} else if seenZero {
+				e.mixedPat = ":interleaved"
+			}
+		}
+	}
 	fnZero := map[int]bool{}
 	for _, l := range m.leaves {
 		if l.defFn != "" {
@@ -725,7 +741,7 @@ func (e *env) runStructShape(shape string, forceKey string) {
 		e.ops[len(e.ops)-1] += fmt.Sprintf("  -> error: %v", res.Error)
 		sig := "create-error/" + recs[0].shape
 		if mixed {
-			sig = "create-error/mixed-preset-keys/" + e.opt
+			sig = "create-error/mixed-preset-keys" + e.mixedPat + "/" + e.opt
 		}
 		// a gob / unixtime serializer field below a nil pointer-embedded struct
 		msg := res.Error.Error()
